@@ -389,9 +389,7 @@ def cfg_spec(k, v):
     return ["int", v]
 
 
-def gen_config_kwargs(rng):
-    kw = []
-    opts = {
+CFG_OPTS = {
         "cutoff": [4, 7, 1, 12],
         "dtype": ["float32", "float64", "float"],
         "measurement_cutoff": [5, 3, 9],
@@ -401,9 +399,13 @@ def gen_config_kwargs(rng):
         "cache_size": [32, 0, 64],
         "validate": [True, False],
         "use_dask": [False, True],
-        "max_sample_generation_trials": [1000, 1, 5000],
-    }
-    for k, vs in opts.items():
+    "max_sample_generation_trials": [1000, 1, 5000],
+}
+
+
+def gen_config_kwargs(rng):
+    kw = []
+    for k, vs in CFG_OPTS.items():
         if rng.random() < 0.45:
             kw.append([k, rng.choice(vs)])
     rng.shuffle(kw)
@@ -422,7 +424,49 @@ def c_cfg_args(kw):
 
 
 # =========================================================================== the check
-def run(chk: Check):
+def replay(chk: Check, path):
+    """./check C18 --replay <file>: re-runs every witness of a replay file (violations of any
+    stream, and the cases quoted by broken correspondences) on the current tree through the same
+    tie and search, and reports what still fails.  Proof obligations are not rebuilt."""
+    data = json.load(open(path))
+    cases = {"nest": [], "prep": [], "bb": [], "rt": [], "config": [], "cfgeq": []}
+    seen = set()
+
+    def add(c):
+        if not isinstance(c, dict):
+            return
+        k = json.dumps(c, sort_keys=True)
+        if k in seen:
+            return
+        seen.add(k)
+        if "instrs" in c and "regs" in c:
+            cases["nest"].append(c)
+        elif "leaves" in c and "expr" in c:
+            cases["prep"].append(c)
+        elif "cls" in c and "nargs" in c:
+            cases["bb"].append(c)
+        elif "program" in c:
+            cases["rt"].append(c)
+        elif "kwargs" in c:
+            cases["config"].append(c)
+        elif "a" in c and "b" in c:
+            cases["cfgeq"].append(c)
+
+    for v in data.get("violations", []):
+        w = v.get("witness") or {}
+        add(w.get("case") if isinstance(w, dict) else None)
+    dec_ = json.JSONDecoder()
+    for line in data.get("broken_correspondence", []):
+        i = line.find(" on {")
+        if i >= 0:
+            try:
+                add(dec_.raw_decode(line[i + 4:])[0])
+            except ValueError:
+                pass
+    run(chk, replay_cases=cases)
+
+
+def run(chk: Check, replay_cases=None):
     T = chk.thorough
     rng = chk.rng
     corr_broken = []
@@ -437,24 +481,31 @@ def run(chk: Check):
     text, problems = c18_gen.render(table)
     if text is not None:
         c18_gen.write_if_changed(GEN, text)
-    chk.proofs()
+    if replay_cases is None:
+        chk.proofs()
+    else:
+        chk.proof_broken = []
+        chk.coverage.update({"obligations": 0, "discharged": 0})
     if problems:
         chk.proof_broken = list(getattr(chk, "proof_broken", [])) + ["translator failed closed: " + "; ".join(problems[:5])]
     rows = table["rows"]
 
     # ---------------- requests
     corpus = []
-    if os.path.exists(CORPUS):
+    R = replay_cases
+    if R is None and os.path.exists(CORPUS):
         corpus = [json.loads(l) for l in open(CORPUS) if l.strip()]
     n_nest = 1500 if T else 300
     n_prep = 4000 if T else 360
     n_rt = 600 if T else 90
     n_cfg = 1500 if T else 200
-    nest_cases = gen_nest(rng, n_nest)
-    prep_cases = [c["case"] for c in corpus if c["stream"] == "prep"]
+    if R is not None:
+        n_nest = n_prep = n_rt = n_cfg = 0
+    nest_cases = gen_nest(rng, n_nest) if R is None else R["nest"]
+    prep_cases = [c["case"] for c in corpus if c["stream"] == "prep"] + (R["prep"] if R else [])
     n_corpus_prep = len(prep_cases)
     # every bracketing of 2..4 leaves at least once with and without aliasing, then random ones
-    for nl in (2, 3, 4):
+    for nl in ((2, 3, 4) if R is None else ()):
         for _ in SHAPES[nl]:
             prep_cases.append(gen_prep_case(rng, nl, alias=False))
             prep_cases.append(gen_prep_case(rng, nl, alias=True))
@@ -469,22 +520,46 @@ def run(chk: Check):
         key = json.dumps(spec)
         return val_ids.setdefault(key, len(val_ids))
 
-    bb_cases = []
-    for r in rows:
+    bb_cases = [] if R is None else list(R["bb"])
+    for r in (rows if R is None else []):
         ar = len(r["sig"])
         for rep in range(6 if T else 3):
             kwargs = [rng.choice(SCALARS) for _ in range(ar)]
             for nargs in range(ar + 1):
                 bb_cases.append({"cls": r["pq"], "kwargs": kwargs, "modes": rng.sample(range(8), r["nmodes"] or 1), "nargs": nargs})
     outside = [c for c in table["all_classes"] if c not in {r["pq"] for r in rows}]
-    rt_cases = [c["case"] for c in corpus if c["stream"] == "rt"] + gen_rt(rng, table, n_rt, T)
-    cfg_cases = [{"kwargs": gen_config_kwargs(rng), "d": rng.choice([None, 1, 3, 8])} for _ in range(n_cfg)]
-    cfg_cases[0] = {"kwargs": [], "d": None}
-    cfg_cases[1] = {"kwargs": [["cutoff", 4], ["seed_sequence", 0], ["hbar", [2, 1]], ["dtype", "float"]], "d": 2}
+    rt_cases = [c["case"] for c in corpus if c["stream"] == "rt"] + (gen_rt(rng, table, n_rt, T) if R is None else R["rt"])
+    cfg_cases = [{"kwargs": [], "d": None},
+                 {"kwargs": [["cutoff", 4], ["seed_sequence", 0], ["hbar", [2, 1]], ["dtype", "float"]], "d": 2}]
+    # every field alone (the sole non-default entry), then random subsets
+    for k, vs in CFG_OPTS.items():
+        for v in vs:
+            cfg_cases.append({"kwargs": [[k, v]], "d": rng.choice([None, 2])})
+    cfg_cases += [{"kwargs": gen_config_kwargs(rng), "d": rng.choice([None, 1, 3, 8])} for _ in range(n_cfg)]
+    # Config.__eq__ on pairs: identical, one field changed, one field added/dropped, unrelated
+    cfgeq_cases = []
+    for k, vs in CFG_OPTS.items():
+        for v in vs:
+            cfgeq_cases.append({"a": [[k, v]], "b": []})
+            cfgeq_cases.append({"a": [[k, v]], "b": [[k, vs[0]]]})
+    for _ in range(n_cfg // 2):
+        a = gen_config_kwargs(rng)
+        r_ = rng.random()
+        if r_ < 0.3:
+            b = list(a)
+        elif r_ < 0.8:
+            k = rng.choice(list(CFG_OPTS))
+            b = [kv for kv in a if kv[0] != k] + ([[k, rng.choice(CFG_OPTS[k])]] if rng.random() < 0.7 else [])
+        else:
+            b = gen_config_kwargs(rng)
+        cfgeq_cases.append({"a": a, "b": b})
+    if R is not None:
+        cfg_cases, cfgeq_cases = R["config"], R["cfgeq"]
 
     impl = run_impl("c18_impl.py", {"nest": nest_cases, "prep": prep_cases, "bb": bb_cases,
                                     "bb_unknown": ["Foogate", "Interferometer", "dgate", ""],
-                                    "bb_outside": outside, "rt": rt_cases, "config": cfg_cases}, timeout=3000,
+                                    "bb_outside": outside, "rt": rt_cases, "config": cfg_cases,
+                                    "cfgeq": cfgeq_cases, "cfg_sweep": 1}, timeout=3000,
                     extra_env=nb_env)
 
     # ====================================================== 1. nesting
@@ -538,7 +613,7 @@ def run(chk: Check):
         errs[r["error"] or "ok"] = errs.get(r["error"] or "ok", 0) + 1
     chk.stream("nested registration vs model (depth 0-4, random registers, empty registers, malformed stream)",
                len(nest_cases), len({json.dumps(c) for c in nest_cases if len(c["regs"]) >= 2}),
-               samples=[{"case": nest_cases[0], "result": impl["nest"][0]["result"], "error": impl["nest"][0]["error"]}],
+               samples=[{"case": nest_cases[0], "result": impl["nest"][0]["result"], "error": impl["nest"][0]["error"]}] if nest_cases else None,
                note="depth histogram %s; outcome mix %s" % (json.dumps(depth_hist, sort_keys=True), json.dumps(errs, sort_keys=True)))
 
     # ====================================================== 2. preparation algebra
@@ -605,7 +680,7 @@ def run(chk: Check):
         nl_hist[n] = nl_hist.get(n, 0) + 1
     chk.stream("preparation algebra: expression trees (<=5 leaves, every bracketing, aliased leaves) vs model: result object, operands afterwards, prepared amplitudes (PureFock; Passive on 1/40)",
                len(prep_cases), len({json.dumps([c["leaves"], c["expr"]]) for c in prep_cases if len(expr_leaves(c["expr"])) >= 2}),
-               samples=[{"case": prep_cases[n_corpus_prep], "result": impl["prep"][n_corpus_prep]["result"]}],
+               samples=[{"case": prep_cases[-1], "result": impl["prep"][-1]["result"]}] if prep_cases else None,
                note="leaves histogram %s; %d corpus cases first" % (json.dumps(nl_hist, sort_keys=True), n_corpus_prep))
 
     # ====================================================== 3. Blackbird positional mapping vs generated table
@@ -668,7 +743,7 @@ Definition bb_ok (x : string * list (string * Z) * list Z * nat * (string * list
     for key, (what, w) in bb_viol.items():
         chk.violation(key, what, w)
     chk.stream("Blackbird operation export/import vs model over the regenerated table (every mapped class, every argument truncation; refusal for every class outside the map)",
-               len(bb_cases) + len(outside) + 4, len(bb_idx), samples=[{"case": bb_cases[0], "observed": impl["bb"][0]}],
+               len(bb_cases) + len(outside) + 4, len(bb_idx), samples=[{"case": bb_cases[0], "observed": impl["bb"][0]}] if bb_cases else None,
                exhaustive=False, note="%d mapped classes, %d instruction classes outside the map" % (len(rows), len(outside)))
 
     # ====================================================== 4. whole-program round trips (search; text layer not modelled)
@@ -698,7 +773,7 @@ Definition bb_ok (x : string * list (string * Z) * list Z * nat * (string * list
         chk.violation(key, v[0], v[1])
     chk.stream("round trips on the implementation: to_blackbird_code->loads_blackbird, as_code->exec, from_dict, copy (scalar values incl. 0.123456789012345, 1e-12, 1e20, 5e-324, ints, numpy scalars; matrix parameters of several dtypes)",
                sum(counts.values()), len({json.dumps(c["program"]) for c in rt_cases}), kind="search",
-               samples=[{"program": rt_cases[-1]["program"][:2], "simulator": rt_cases[-1]["simulator"]}],
+               samples=[{"program": rt_cases[-1]["program"][:2], "simulator": rt_cases[-1]["simulator"]}] if rt_cases else None,
                note="per trip: %s; %d generated programs rejected by a constructor and skipped" % (json.dumps(counts, sort_keys=True), rt_skipped))
 
     # ====================================================== 5. Config / Simulator code
@@ -715,16 +790,53 @@ Definition bb_ok (x : string * list (string * Z) * list Z * nat * (string * list
         if not r["equal"] or not r["code_again"]:
             cfg_viol.setdefault("C18:Config._as_code:not-equal-after-exec", ("Config rebuilt from its code is not == to the original", {"case": c, "observed": r}))
         if not r["sim_equal"] or r["sim_d"] != c["d"]:
-            cfg_viol.setdefault("C18:Simulator._as_code:not-equal-after-exec", ("Simulator rebuilt from its code differs", {"case": c, "observed": r}))
+            cfg_viol.setdefault("C18:Simulator._as_code:not-equal-after-exec", ("Simulator rebuilt from its code differs (attribute by attribute)", {"case": c, "observed": r}))
+        if r["equal"] and not r["eq"]:
+            cfg_viol.setdefault("C18:Config.__eq__:equal-attributes-compare-unequal", ("Config rebuilt with identical attributes is not == to the original", {"case": c, "observed": r}))
+        if not r["copy_equal"]:
+            cfg_viol.setdefault("C18:Config.copy:attributes-differ", ("Config.copy() changes an attribute or does not share the generator", {"case": c, "observed": r}))
     mm, = eval_cases("c18_cfg", KW_DEFS, "cfg_args * option Z * list (Z * Q) * bool", "cfg_ok", items, per=300)
     for i in mm:
         j = cfg_idx[i]
         corr_broken.append("config code: model != implementation on %s -> %s" % (json.dumps(cfg_cases[j]), impl["config"][j].get("code")))
+    # Config.__eq__ against the model's cfg_eqb on pairs, and stated directly (== iff same attributes)
+    eq_items, eq_idx = [], []
+    for i, (c, r) in enumerate(zip(cfgeq_cases, impl["cfgeq"])):
+        if "error" in r:
+            cfg_viol.setdefault("C18:Config.__eq__:exception", ("Config comparison raised " + r["error"], {"case": c}))
+            continue
+        eq_items.append("(%s, %s, %s)" % (c_cfg_args(c["a"]), c_cfg_args(c["b"]), cbool(r["eq"])))
+        eq_idx.append(i)
+        if r["eq"] != r["attrs_equal"] or r["eq_rev"] != r["eq"] or r["ne"] == r["eq"]:
+            diff = sorted({k for k, _ in c["a"]} ^ {k for k, _ in c["b"]} | {k for k, v in c["a"] if [k, v] not in c["b"]})
+            cfg_viol.setdefault("C18:Config.__eq__:" + ("fields-" + "+".join(diff) if diff else "identical"), (
+                "Config.__eq__ disagrees with the attribute-by-attribute comparison (== %s, attributes %s)" % (
+                    r["eq"], "equal" if r["attrs_equal"] else "differ"), {"case": c, "observed": r}))
+    mm, = eval_cases("c18_cfgeq", KW_DEFS, "cfg_args * cfg_args * bool",
+                     "fun x => let '(a, b, r) := x in Bool.eqb (cfg_eqb (construct a) (construct b)) r", eq_items, per=300)
+    for i in mm:
+        j = eq_idx[i]
+        corr_broken.append("Config.__eq__: model cfg_eqb != implementation on %s -> %s" % (json.dumps(cfgeq_cases[j]), json.dumps(impl["cfgeq"][j])))
+    # single-field sweep generated by the runner from inspect.signature(Config): every field, alone
+    sweep = impl.get("cfg_sweep", [])
+    for rec in sweep:
+        if rec["problems"]:
+            area = rec["problems"][0].split(":")[0].split(" ")[0]
+            cfg_viol.setdefault("C18:Config:single-field:%s:%s" % (rec["field"], area), (
+                "a configuration whose sole non-default entry is %s=%s: %s" % (rec["field"], rec["value"], rec["problems"][0]),
+                {"config": {rec["field"]: rec["value"]}, "problems": rec["problems"][:6],
+                 "call": "pq.<Simulator>(d, config=pq.Config(%s=%s)); pq.as_code / _as_code / == / copy, compared attribute by attribute" % (rec["field"], rec["value"])}))
     for key, (what, w) in cfg_viol.items():
         chk.violation(key, what, w)
+    chk.stream("Config: every field alone (runner-generated from the signature) through ==, copy, _as_code+eval, Simulator._as_code+eval, pq.as_code+exec for three simulator classes, attribute by attribute",
+               len(sweep) * 15, len(sweep), kind="search", exhaustive=True,
+               samples=[{"field": sweep[-1]["field"], "value": sweep[-1]["value"]}] if sweep else None)
+    chk.stream("Config.__eq__ on pairs vs model cfg_eqb and vs attribute comparison", len(cfgeq_cases),
+               len({json.dumps(c) for c in cfgeq_cases if c["a"] != c["b"]}),
+               samples=[{"case": cfgeq_cases[-1], "observed": impl["cfgeq"][-1]}] if cfgeq_cases else None)
     chk.stream("Config._as_code / Simulator._as_code vs model (emitted keywords, order, values) and == after exec",
                len(cfg_cases), len({json.dumps(sorted(map(json.dumps, c["kwargs"]))) for c in cfg_cases if c["kwargs"]}),
-               samples=[{"case": cfg_cases[1], "code": impl["config"][1].get("code")}])
+               samples=[{"case": cfg_cases[-1], "code": impl["config"][-1].get("code")}] if cfg_cases else None)
 
     chk.assumptions += [
         "the Blackbird table is read from the working tree by introspection (inspect.signature, a sentinel-instantiated object); the `blackbird` package's printer/parser, repr/str of floats and exec are exercised by the round-trip stream, not modelled",
